@@ -75,6 +75,19 @@ func phiSelfStep(ph *ssa.Phi) int {
 // local copy named like it), the index form.
 func loopVisits(fn *ssa.Function, owner, field string) []string {
 	var out []string
+	// range-over-func forms: slices.Backward(f) visits descending, slices.All/Values ascending
+	for _, ci := range Calls(fn, false, func(cc *ssa.CallCommon) bool {
+		o := CalleeObj(cc)
+		return o != nil && o.Pkg() != nil && o.Pkg().Path() == "slices" && (o.Name() == "Backward" || o.Name() == "All" || o.Name() == "Values")
+	}) {
+		if len(ci.Common().Args) == 1 && (isFieldLoad(ci.Common().Args[0], owner, field) || derivedFromField(ci.Common().Args[0], owner, field, 3) || (owner == "" && field == "")) {
+			if CalleeObj(ci.Common()).Name() == "Backward" {
+				out = append(out, "desc")
+			} else {
+				out = append(out, "asc")
+			}
+		}
+	}
 	AllInstrs(fn, false, func(in ssa.Instruction) {
 		ia, ok := in.(*ssa.IndexAddr)
 		if !ok || !blockInLoop(ia.Block()) {
@@ -196,14 +209,8 @@ func recencySites(c *Ctx, rule string) {
 			fmt.Sprintf("memtable list is not newest-first (immutables visited %v, append-at-end=%v, active-first=%v): with first-hit-wins an older memtable shadows a newer one", forms, appendEnd, activeFirst))
 	}
 	if g := c.Fn("lsm", "LSM.Get"); g != nil {
-		// first hit returns: a Return inside the loop over tables
-		retInLoop := false
-		for _, r := range Returns(g) {
-			if blockInLoop(r.Block()) || loopBodyReturn(g, r) {
-				retInLoop = true
-			}
-		}
-		c.Decide(retInLoop, rule, "site-A:memtables#first-hit-wins", g.Pos(), 2, "LSM.Get returns the first memtable hit", "LSM.Get no longer returns on the first memtable hit")
+		// (which hit wins is decided by K10.newest-version-across-sources: strictly greater version
+		// replaces, so among equal versions the first source visited wins)
 		lv := Calls(g, false, Named("lsm.(*levelManager).Get"))
 		c.Decide(len(lv) == 1, rule, "site-A:memtables#before-levels", g.Pos(), 1, "levels are consulted only after every memtable missed", "LSM.Get does not consult the levels exactly once after the memtables")
 	}
@@ -238,7 +245,7 @@ func recencySites(c *Ctx, rule string) {
 	}
 	// --- site C: Ln ingest before main ---------------------------------------------
 	if fn := c.Fn("lsm", "levelHandler.Get"); fn != nil {
-		ing := Calls(fn, false, Named("lsm.(*levelHandler).searchIngestSST"))
+		ing := Calls(fn, false, Named("lsm.(*levelHandler).searchIngestSST", "lsm.(ingestBuffer).search", "lsm.(*ingestBuffer).search"))
 		ln := Calls(fn, false, Named("lsm.(*levelHandler).searchLNSST"))
 		good := len(ing) == 1 && len(ln) == 1
 		if good {
@@ -346,6 +353,14 @@ func recencySites(c *Ctx, rule string) {
 				forms = append(forms, indexForm(ia.Index, 5))
 			}
 		})
+		for _, ci := range Calls(fn, false, func(cc *ssa.CallCommon) bool {
+			o := CalleeObj(cc)
+			return o != nil && o.Pkg() != nil && o.Pkg().Path() == "slices" && o.Name() == "Backward"
+		}) {
+			if len(ci.Common().Args) == 1 && ci.Common().Args[0] == ssa.Value(fn.Params[0]) {
+				forms = append(forms, "desc")
+			}
+		}
 		c.Decide(len(forms) == 1 && forms[0] == "desc", rule, "site-E:iteratorsReversed#desc", fn.Pos(), 1, "walks the slice from the end", fmt.Sprintf("iteratorsReversed walks %v", forms))
 	}
 	// --- site F: compaction input order -----------------------------------------------
